@@ -16,12 +16,13 @@ from mc.util import exc_sig
 PROPERTY = "C13"
 LEVEL = "exploration"
 RULE = (
-    "cases = circuits of the bounded grammar (<= 3 variables, <= 2 units) x valuation kind {generic, monotone, zeros, mzeros}; "
+    "cases = circuits of the bounded grammar (<= 3 variables, <= 2 units) x valuation kind {generic, monotone, zeros, mzeros, complex, tiny}; "
     "per case every semiring x (fold, optimize): autograd gradient of a fixed generic linear functional of all linear-space "
     "outputs on all rows, mapped back to symbolic tensors through the registry, compared (a) across the four flag "
     "combinations (1e-9), (b) with central finite differences of the numpy reference (1e-5; generic/monotone only), (c) the "
     "same for continuous inputs; (d) per (row, output unit) gradients must be finite wherever the value is non-zero "
-    "(zeros / mzeros valuations incl. lse-sum and the safe complex logarithm). Non-trivial: >= 2 learnable tensors compared"
+    "(zeros / mzeros valuations incl. lse-sum and the safe complex logarithm); (e) across semirings with the sum-product "
+    "semiring's autograd gradient (1e-8 relative; generic, monotone and a 'tiny' valuation with sum weights ~1e-7). Non-trivial: >= 2 learnable tensors compared"
 )
 ASSUMPTIONS = ["finite differences decide (b), (c) only to 1e-5 relative; (a), (d) are exact comparisons",
                "a generic linear functional of the outputs stands for the individual output gradients in (a)-(c)"]
@@ -47,6 +48,9 @@ def cases(tier, seed):
                             yield {"circ": circ, "vk": "monotone", "frozen": frozen}
                     if inp in ("emb", "poly2") and outputs == "single":
                         yield {"circ": dict(circ, cplx=True), "vk": "complex"}
+                        # tiny magnitudes (sum weights ~1e-7): the log-space semirings must still give the gradient of the
+                        # linear-space functional (compared with the sum-product semiring's autograd, 1e-8 relative)
+                        yield {"circ": circ, "vk": "tiny"}
                     for vk in ["generic", "monotone", "zeros", "mzeros"]:
                         if vk in ("zeros", "mzeros") and inp in ("gau", "gau-lp", "bin-probs", "bin-logits", "cat-logits", "cat-softmax"):
                             if inp != "cat-logits":
@@ -104,7 +108,9 @@ def run_case(case):
                 spec["layers"][i] = dict(spec["layers"][i], frozen=True)
     sc, roles = cdl.build_circuit(spec)
     vk = case["vk"]
-    val = cdl.valuation(roles, vk, seed)
+    val = cdl.valuation(roles, "generic" if vk == "tiny" else vk, seed)
+    if vk == "tiny":
+        val = {t: (v * 1e-7 if roles[t] == "w" else v) for t, v in val.items()}
     dom = ref.var_domains(sc)
     poly = case["circ"]["inp"].startswith("poly")
     grid = (0.3, 0.9, 1.6) if (poly and vk in ("monotone", "mzeros")) else (-0.8, 0.35, 1.2)
@@ -212,6 +218,22 @@ def run_case(case):
                                 viols.append({"sig": {"kind": "non-finite-gradient", "vk": vk, "semiring": semiring, "_nomerge": True},
                                               "detail": f"{cfg}: row {rows[bi]} output ({o},{k}) value {expected[bi, o, k]}: non-finite grad in {bad[:3]}"})
                                 break
+    # (e) across semirings: J is the same linear-space functional in every semiring, so its gradient must not depend on it
+    if vk in ("generic", "monotone", "tiny") and not case.get("frozen"):
+        base = per_cfg.get(("sum-product", False, False))
+        for semiring in semirings:
+            other = per_cfg.get((semiring, False, False))
+            if semiring == "sum-product" or base is None or other is None:
+                continue
+            for i, t in enumerate(params):
+                a, b = base[0][i], other[0][i]
+                if a is None or b is None or not (np.all(np.isfinite(a)) and np.all(np.isfinite(b))):
+                    continue
+                tol = 1e-8 * float(np.max(np.abs(a))) + 1e-300
+                if not np.all(np.abs(a - b) <= tol):
+                    viols.append({"sig": {"kind": "gradient-semiring-divergence", "vk": vk, "semiring": semiring, "_nomerge": True},
+                                  "detail": f"tensor {i} ({roles[t]}): sum-product {a.reshape(-1)[:4]} vs {semiring} {b.reshape(-1)[:4]}"})
+                    break
     # (a) across flags
     for semiring in semirings:
         base = per_cfg.get((semiring, False, False))
